@@ -1,0 +1,33 @@
+//go:build verif
+
+package tbtc
+
+import (
+	"github.com/keep-network/keep-core/pkg/protocol/inactivity"
+	"github.com/keep-network/keep-core/pkg/tecdsa/dkg"
+)
+
+// Verification hook (build tag verif, property C13): re-exports the
+// constructors of the DKG result and inactivity claim signers/submitters.
+
+func VerifC13NewDkgResultSigner(chain Chain) dkg.ResultSigner {
+	return newDkgResultSigner(chain, 0)
+}
+
+func VerifC13NewDkgResultSubmitter(
+	chain Chain,
+	groupParameters *GroupParameters,
+) dkg.ResultSubmitter {
+	return newDkgResultSubmitter(logger, chain, groupParameters, nil, nil)
+}
+
+func VerifC13NewInactivityClaimSigner(chain Chain) inactivity.ClaimSigner {
+	return newInactivityClaimSigner(chain)
+}
+
+func VerifC13NewInactivityClaimSubmitter(
+	chain Chain,
+	groupParameters *GroupParameters,
+) inactivity.ClaimSubmitter {
+	return newInactivityClaimSubmitter(logger, chain, groupParameters, nil, nil)
+}
